@@ -33,6 +33,10 @@ pub struct WbCase {
     /// after the burst drained: this many single writes, one at a time, each awaited separately
     #[serde(default)]
     pub probes: u8,
+    /// instead of the burst: fill a tiny device (data blocks), keep accepted writes waiting for
+    /// space for `hold_ms`, then reclaim space with deletes: (data blocks, victims, hold_ms)
+    #[serde(default)]
+    pub full_device: Option<(u16, u8, u16)>,
 }
 
 fn strat() -> BoxedStrategy<WbCase> {
@@ -47,8 +51,9 @@ fn strat() -> BoxedStrategy<WbCase> {
         any::<bool>(),
         proptest::bool::weighted(0.25),
         prop_oneof![3 => Just(0u8), 1 => 8u8..16],
+        prop_oneof![6 => Just(None), 1 => (24u16..64, 1u8..7, prop_oneof![Just(100u16), 300u16..1200, 1200u16..3500]).prop_map(Some)],
     )
-        .prop_map(|(visible_cpus, keys, hot_updates, overwrite_pct, delete_pct, hammer, value_len, plain_io, ttl_sweep, probes)| WbCase { visible_cpus, keys, hot_updates, overwrite_pct, delete_pct, hammer, value_len, plain_io, ttl_sweep, probes })
+        .prop_map(|(visible_cpus, keys, hot_updates, overwrite_pct, delete_pct, hammer, value_len, plain_io, ttl_sweep, probes, full_device)| WbCase { visible_cpus, keys, hot_updates, overwrite_pct, delete_pct, hammer, value_len, plain_io, ttl_sweep, probes, full_device })
         .boxed()
 }
 
@@ -62,6 +67,9 @@ pub struct WbNotes {
     pub max_stall_ms: u64,
     pub other_worker_pending: bool,
     pub probes_durable: u64,
+    /// full-device phase: ms the victims waited for space, ms until they were durable afterwards
+    pub full_waited_ms: u64,
+    pub full_drained_ms: u64,
 }
 
 const NOMINAL: Duration = Duration::from_secs(2);
@@ -71,7 +79,98 @@ fn key(i: u16) -> Vec<u8> {
     format!("wb-{i:05}").into_bytes()
 }
 
+/// Full-device phase: accepted writes that cannot be allocated yet must reach the device on their
+/// own, within the same bound, once accepted deletes have reclaimed the space. No flush anywhere.
+fn judge_full(case: &WbCase, blocks: u16, victims: u8, hold_ms: u16, notes: &mut WbNotes) -> Result<(), (String, String)> {
+    let cfg = Config { persistent: true, version: 3, cache: false, ttl: false, dev: DevSize::Tiny(blocks), max_memory: None, plain_io: case.plain_io, legacy_plain_meta: false, visible_cpus: case.visible_cpus };
+    let path = env::fresh_path("wbfull");
+    std::fs::File::create(&path).expect("create");
+    feoxdb::verif::set_thread_clock(None);
+    let store = Arc::new(seq::open_store(&cfg, Some(&path)).map_err(|e| ("open-failed".to_string(), format!("{e:?}")))?);
+    let stop = Arc::new(AtomicBool::new(false));
+    let max_stall = Arc::new(AtomicU64::new(0));
+    let hb = {
+        let (stop, max_stall) = (stop.clone(), max_stall.clone());
+        std::thread::spawn(move || {
+            while !stop.load(Ordering::Relaxed) {
+                let t = Instant::now();
+                std::thread::sleep(Duration::from_millis(10));
+                max_stall.fetch_max(t.elapsed().as_millis().saturating_sub(10) as u64, Ordering::Relaxed);
+            }
+        })
+    };
+    let snap0 = store.verif_snapshot();
+    notes.shards = snap0.shard_pending.len();
+    notes.workers = snap0.worker_count;
+    let bound = |since: Instant| since.elapsed() > HARD + Duration::from_millis(max_stall.load(Ordering::Relaxed) * 5);
+    let on_device = |k: &[u8]| store.verif_peek(k).is_some_and(|p| p.sector != 0);
+    let mut verdict: Result<(), (String, String)> = Ok(());
+    // 1. one-block records, exactly as many as the data area holds; all must drain by themselves
+    let fillers: Vec<Vec<u8>> = (0..blocks).map(|i| format!("wb-fill-{i:04}").into_bytes()).collect();
+    for k in &fillers {
+        let _ = store.insert(k, b"filler");
+    }
+    let t0 = Instant::now();
+    while !fillers.iter().all(|k| on_device(k)) {
+        std::thread::sleep(Duration::from_millis(20));
+        if bound(t0) {
+            verdict = Err(("write-behind-unbounded".into(), format!("{} one-block records on a device with {blocks} data blocks are not all durable {} s after the last call (no explicit flush)", blocks, t0.elapsed().as_secs())));
+            break;
+        }
+    }
+    if verdict.is_ok() {
+        // 2. accepted writes that have to wait for space
+        let vk: Vec<Vec<u8>> = (0..victims).map(|i| format!("wb-victim-{i}").into_bytes()).collect();
+        let mut accepted = Vec::new();
+        for k in &vk {
+            if store.insert(k, b"waits for space").is_ok() {
+                accepted.push(k.clone());
+            }
+        }
+        std::thread::sleep(Duration::from_millis(hold_ms as u64));
+        notes.full_waited_ms = hold_ms as u64;
+        // 3. reclaim: delete twice as many durable records (accepted deletes)
+        for k in fillers.iter().take(2 * victims as usize + 1) {
+            let _ = store.delete(k);
+        }
+        let t1 = Instant::now();
+        loop {
+            std::thread::sleep(Duration::from_millis(20));
+            let waiting: Vec<String> = accepted.iter().filter(|k| !on_device(k)).map(|k| String::from_utf8_lossy(k).into_owned()).collect();
+            if waiting.is_empty() {
+                notes.full_drained_ms = t1.elapsed().as_millis() as u64;
+                notes.drained_ms = notes.full_drained_ms;
+                notes.slow = t1.elapsed() > NOMINAL;
+                break;
+            }
+            if bound(t1) {
+                let snap = store.verif_snapshot();
+                let free: u64 = snap.free_runs.iter().map(|(_, n)| *n).sum();
+                verdict = Err((
+                    "waiting-write-never-flushed".into(),
+                    format!(
+                        "accepted writes {waiting:?} waited {hold_ms} ms for space on a full device; {} s after accepted deletes reclaimed it ({free} free blocks now, no explicit flush, max scheduling stall {} ms) they are still not on the device; pending per shard {:?}, {} workers",
+                        t1.elapsed().as_secs(),
+                        max_stall.load(Ordering::Relaxed),
+                        snap.shard_pending,
+                        snap.worker_count
+                    ),
+                ));
+                break;
+            }
+        }
+    }
+    notes.max_stall_ms = max_stall.load(Ordering::Relaxed);
+    stop.store(true, Ordering::Relaxed);
+    let _ = hb.join();
+    env::reap(store, Some(path));
+    verdict
+}
+
 pub fn judge(case: &WbCase, notes: &mut WbNotes) -> Result<(), (String, String)> {
+    if let Some((blocks, victims, hold_ms)) = case.full_device {
+        return judge_full(case, blocks, victims, hold_ms, notes);
+    }
     let cfg = Config { persistent: true, version: 3, cache: false, ttl: case.ttl_sweep, dev: DevSize::Large, max_memory: None, plain_io: case.plain_io, legacy_plain_meta: false, visible_cpus: case.visible_cpus };
     let path = env::fresh_path("wb");
     std::fs::File::create(&path).expect("create");
@@ -341,8 +440,14 @@ pub fn run(tier: Tier, seed: u64, replay: Option<&str>) -> i32 {
             if case.hot_updates > 512 {
                 *c.entry("buffer_filling_burst".into()).or_insert(0) += 1;
             }
-            if case.hammer {
+            if case.hammer && case.full_device.is_none() {
                 *c.entry("busy_neighbour".into()).or_insert(0) += 1;
+            }
+            if case.full_device.is_some() {
+                *c.entry("full_device_phase".into()).or_insert(0) += 1;
+                if notes.full_waited_ms >= 1000 {
+                    *c.entry("full_device_phase.waited_over_1s".into()).or_insert(0) += 1;
+                }
             }
             *c.entry("single_write_probes_durable".into()).or_insert(0) += notes.probes_durable;
             if notes.shards_hit >= 2 && notes.other_worker_pending {
@@ -357,14 +462,14 @@ pub fn run(tier: Tier, seed: u64, replay: Option<&str>) -> i32 {
         }
         r.map_err(|(sig, msg)| format!("[{sig}] {msg}"))
     };
-    let found = run_lanes(strat(), tier.pick(400, 5000), 12, seed, env::threads(), check);
+    let found = run_lanes(strat(), tier.pick(400, 5000), 6, seed, env::threads(), check);
     env::wait_reaper();
     let mut ev = Evidence::new(
         "C19",
         tier,
         seed,
         "exploration",
-        "proptest-generated live workloads without any explicit flush on stores built with 1..8 workers/shards (2-16 visible CPUs): 64-260 distinct keys (so all shards are hit), overwrites and deletes whose old generations must be retired, optional buffer-filling burst on one key (>1024 entries in one shard), optional hammering neighbour thread, optional TTL keys removed by the sweeper, small to 9 KB values, both I/O paths, odd and even CPU counts; a quarter of the cases continues with 8-15 single writes issued one at a time, each awaited separately (sparse traffic). After the last call returns the harness polls (peek/snapshot hooks) until every accepted key has a device extent and, without a busy neighbour, no buffered entry or retirement is pending; then the fsync-covered image rebuilt from the I/O trace must decode (independent codec) to the final values with no superseded generation left, and recover. Violation only if not drained 15 s + 5x the largest measured scheduling stall after the last call, reproduced twice; 2 s..15 s is recorded as slow. Non-trivial: at least two shards held pending entries at the end of the burst, one of them owned by a worker other than worker 0.",
+        "proptest-generated live workloads without any explicit flush on stores built with 1..8 workers/shards (2-16 visible CPUs): 64-260 distinct keys (so all shards are hit), overwrites and deletes whose old generations must be retired, optional buffer-filling burst on one key (>1024 entries in one shard), optional hammering neighbour thread, optional TTL keys removed by the sweeper, small to 9 KB values, both I/O paths, odd and even CPU counts; a quarter of the cases continues with 8-15 single writes issued one at a time, each awaited separately (sparse traffic); a seventh of the cases instead fills a 24-63 block device with one-block records, issues 1-6 further accepted writes that must wait for space for 0.1-3.5 s, reclaims space with accepted deletes and requires the waiting writes on the device within the same bound. After the last call returns the harness polls (peek/snapshot hooks) until every accepted key has a device extent and, without a busy neighbour, no buffered entry or retirement is pending; then the fsync-covered image rebuilt from the I/O trace must decode (independent codec) to the final values with no superseded generation left, and recover. Violation only if not drained 15 s + 5x the largest measured scheduling stall after the last call, reproduced twice; 2 s..15 s is recorded as slow. Non-trivial: at least two shards held pending entries at the end of the burst, one of them owned by a worker other than worker 0.",
     );
     ev.started = started;
     ev.evaluations = evaluations.load(Ordering::Relaxed);
